@@ -60,16 +60,23 @@ func (ex *Exec) isPurePkg(p *types.Package) bool {
 }
 
 func (ex *Exec) freshResult(st *State, prefix string, t types.Type) Val {
+	save := st.callResult
+	st.callResult = true
+	defer func() { st.callResult = save }()
+	return ex.freshResult1(st, prefix, t)
+}
+
+func (ex *Exec) freshResult1(st *State, prefix string, t types.Type) Val {
 	if tup, ok := t.(*types.Tuple); ok {
 		if tup.Len() == 0 {
 			return Val{Tup: []Val{}}
 		}
 		if tup.Len() == 1 {
-			return ex.freshResult(st, prefix, tup.At(0).Type())
+			return ex.freshResult1(st, prefix, tup.At(0).Type())
 		}
 		var vs []Val
 		for i := 0; i < tup.Len(); i++ {
-			vs = append(vs, ex.freshResult(st, fmt.Sprintf("%s.%d", prefix, i), tup.At(i).Type()))
+			vs = append(vs, ex.freshResult1(st, fmt.Sprintf("%s.%d", prefix, i), tup.At(i).Type()))
 		}
 		return Val{Tup: vs}
 	}
